@@ -48,6 +48,7 @@ THEOREMS = {
         ("XV.Rx.matchAt_gt", _PR),
         ("XV.Rx.matchAt_ge", _PR),
         ("XV.Rx.matchAt_le_size", _PR),
+        ("XV.Rx.matchAt_minLen", "XonshVerif.Proofs.RegexMinLen"),
     ],
     "C06": [
         ("XV.procArgs_groups", "XonshVerif.Properties.C06"),
